@@ -181,7 +181,7 @@ def S1_nonce_flags(ctx):
     ctx.ob('S1', pe, 'committer-uses-configured-nonce-check', n >= 1 and not bad, '; '.join(w for w, _ in bad[:2]), site=pe.loc(pe.b['lo']),
            what='the commit-time nonce re-check is the only nonce check of the parallel path; building the committer with `true` makes every nonce error pass')
     # worker closure: cfg.disable_nonce_check = true before GrevmExecutor::new(.., cfg, ..)
-    cls = [b for b in ctx.facts.bodies if b['kind'] == 'closure' and b['fn'].startswith(pe.name + '::')]
+    cls = ctx.facts.closures_under(pe.name)
     okw = False
     badw = []
     for c in cls:
@@ -204,7 +204,7 @@ def S1_nonce_flags(ctx):
            what='speculative attempts must not reject on nonces of uncommitted predecessors; the committed-state check decides')
     # sequential path: reject_nonce_overflow gets the configured flag; evm built with self.cfg
     rf = ctx.method('scheduler::Scheduler<DB>', 'replay_uncommitted_suffix')
-    cls = [b for b in ctx.facts.bodies if b['kind'] == 'closure' and b['fn'].startswith(rf.name + '::')]
+    cls = ctx.facts.closures_under(rf.name)
     ok = False
     for c in cls:
         cf = ctx.fn(c)
@@ -266,7 +266,7 @@ def S5_sequential_suffix(ctx):
            what='Ok ⇒ Executed; Err(Transaction(e)) ⇒ Skipped(e) and continue; any other Err ⇒ stop and return the completed prefix with GrevmError{txid: that index}')
     # the replay closure: commit only on Ok
     rf_ = ctx.method('scheduler::Scheduler<DB>', 'replay_uncommitted_suffix')
-    cls = [b for b in ctx.facts.bodies if b['kind'] == 'closure' and b['fn'].startswith(rf_.name + '::')]
+    cls = ctx.facts.closures_under(rf_.name)
     found = False
     bad = []
     for c in cls:
@@ -402,8 +402,8 @@ def E2_post_execute(ctx):
            what='Fatal ⇒ that transaction\'s recorded error with its txid (else replay); CommitError ⇒ that error; ParallelError / FallbackSequential / no reason ⇒ sequential replay from the committed boundary; not aborted ⇒ Ok')
     # the and_then closure: execute_result.as_ref().err().cloned()
     okc = False
-    for c in ctx.facts.bodies:
-        if c['kind'] == 'closure' and c['fn'].startswith(f.name + '::'):
+    for c in ctx.facts.closures_under(f.name):
+        if True:
             cf = ctx.fn(c)
             for p in feasible(cf.paths()):
                 r = [e for e in p.events if e.kind == 'ret'][0].d['value']
